@@ -24,6 +24,18 @@ func (fr *frame) contractEnv(h *Heap) *Env {
 	}
 	env.heap = h.get
 	env.old = fr.entry.get
+	for _, fv := range fr.fn.FreeVars {
+		if v, ok := fr.vals[fv]; ok && v.T != nil {
+			// a captured variable is seen through its cell
+			if pt, isPtr := types.Unalias(fv.Type()).Underlying().(*types.Pointer); isPtr {
+				if _, isSt := fr.w.repoStruct(pt.Elem()); !isSt && fr.w.sortOf(pt.Elem()) != "" {
+					env.vars[fv.Name()] = TV{T: Select(h.get(fr.w.cellHeap(pt.Elem())), v.T), Ty: pt.Elem()}
+					continue
+				}
+			}
+			env.vars[fv.Name()] = valTV(v)
+		}
+	}
 	for i, p := range fr.fn.Params {
 		if fr.params != nil && i < len(fr.params) && fr.params[i].Loc == nil && fr.params[i].Clo == nil && fr.params[i].Fn == nil {
 			env.vars[p.Name()] = valTV(fr.params[i])
